@@ -1,6 +1,7 @@
 import PcVerif.Util.Proto
 import PcVerif.Spec.Geometry
 import PcVerif.Model.VttPos
+import PcVerif.Model.DfxpLayout
 namespace PcVerif.Ops
 open Proto Geo
 
@@ -90,5 +91,23 @@ def vttPosOps : List (String × Handler) := [
   ("vtt.settings", fun a => match a with
     | [r, f, w, h, l] => encExc encStr (VttPos.convert (decBool r) (decBool f) (decNat w) (decNat h) (decOptWith decLayout l))
     | _ => "bad-args")
+]
+end PcVerif.Ops
+
+namespace PcVerif.Ops
+open Proto Geo
+def encAttrs (a : DfxpLayout.Attrs) : String :=
+  String.intercalate ";" [encOptWith encStr a.origin, encOptWith encStr a.extent, encOptWith encStr a.padding,
+    encOptWith encStr a.textAlign, encOptWith encStr a.displayAlign]
+def decAttrs (s : String) : DfxpLayout.Attrs :=
+  match s.splitOn ";" with
+  | [o, e, p, t, d] => ⟨decOptWith decStr o, decOptWith decStr e, decOptWith decStr p, decOptWith decStr t, decOptWith decStr d⟩
+  | _ => ⟨none, none, none, none, none⟩
+/-- C12: a layout as region attributes (`_convert_layout_to_attributes`) and a region's attributes as a layout -/
+def dfxpLayoutOps : List (String × Handler) := [
+  ("dfxp.layoutattrs", fun a => match a with
+    | [l] => encAttrs (DfxpLayout.layoutAttrs (decOptWith decLayout l)) | _ => "bad-args"),
+  ("dfxp.readregion", fun a => match a with
+    | [x] => encExc (encOptWith encLayout) (DfxpLayout.readRegion (decAttrs x)) | _ => "bad-args")
 ]
 end PcVerif.Ops
